@@ -197,6 +197,10 @@ class SymtableCodeGen(AbstractCodeGen):
         for sym in regedSyms:
             self._postponedSyms.pop(sym)
 
+        if regedSyms:
+            # symbols just registered may be the parents other postponed symbols wait for
+            self.regPostponedSyms()
+
         # Clause handlers
 
     # noinspection PyUnusedLocal
